@@ -3,7 +3,7 @@
    nat / N / Z / positive stay the extracted inductives.  No Extract Constant. *)
 From Coq Require Import Extraction ExtrOcamlBasic ZArith NArith List.
 From Selfies Require Import Base Generated Lex Atoms Grammar Compat Decoder.
-From Selfies Require Import IndexSpec.
+From Selfies Require Import IndexSpec WfSpec.
 Extraction Language OCaml.
 Set Extraction AccessOpaque.
 Extraction "model.ml"
@@ -14,4 +14,5 @@ Extraction "model.ml"
   process_atom_symbol smiles_to_atom atom_to_smiles modernize_symbol
   next_atom_state next_branch_state next_ring_state
   decoder decode_graph
-  doc_digit doc_value.
+  doc_digit doc_value
+  render tokens symbols wf_parse.
